@@ -194,6 +194,15 @@ class Flow:
                 sub = Flow(self.dom, g, self.depth + 1)
                 sub.want = lambda n_: False
                 return sub.val(g["body"], S)
+            if g is not None and "body" in g:
+                # a function that answers one constant of the inner enum whatever it is given (`fn node_type(&self) -> NodeType
+                # { NodeType::Element }` of one node kind)
+                b = g["body"]
+                while isinstance(b, dict) and b.get("k") == "Block" and not b.get("stmts") and "expr" in b:
+                    b = b["expr"]
+                if isinstance(b, dict) and b.get("k") == "Path" and str(b.get("res", "")).startswith("Ctor") and \
+                        str(b.get("path", "")).split("::")[-1] in self.dom.inner_vars:
+                    return {s_: {str(b["path"]).split("::")[-1]} for s_ in S}
         return None
 
     def _arms(self, n, S):
@@ -287,6 +296,22 @@ class Flow:
             st = self._str_test(e["a"], e["b"], e.get("op") in ("!=", "Ne"), U)
             if st is not None:
                 return st
+            # `node.node_type() == NodeType::Attribute`: an inner value computed from the tracked one, compared with a constant
+            for x, y in ((e["a"], e["b"]), (e["b"], e["a"])):
+                cy = y
+                while isinstance(cy, dict) and cy.get("k") in ("AddrOf",):
+                    cy = cy["a"]
+                if isinstance(cy, dict) and cy.get("k") == "Path" and str(cy.get("res", "")).startswith("Ctor") and \
+                        str(cy.get("path", "")).split("::")[-1] in self.dom.inner_vars and self.dom.level(x.get("ty")) == "inner":
+                    M = self.val(x, U)
+                    if M is None:
+                        raise Unknown("value of the inner enum is not computable")
+                    c = str(cy["path"]).split("::")[-1]
+                    t = {s_ for s_ in U if M.get(s_) == {c}}
+                    maybe = {s_ for s_ in U if c in M.get(s_, set())}
+                    if t != maybe:
+                        raise Unknown("inner value is not determined by the tracked value")
+                    return (U - t) if e.get("op") in ("!=", "Ne") else t
             if not self.mentions(e):
                 return None
             return self.eq_const(e)
